@@ -114,7 +114,9 @@ func c09Eval(s *vh.Session, c c09Case) (string, string) {
 			var got runResult
 			var ok bool
 			args := []string{"gen"}
-			switch cwdMode {
+			// the runs of one comparison point rotate through the ways of giving the working
+			// directory (chdir, -cwd ABS from elsewhere, -cwd REL from a sub-directory)
+			switch (cwdMode + i) % 3 {
 			case 1:
 				args = append(append(args, "-cwd", root), patterns...)
 				got, ok = cliRun(s, root, os.TempDir(), args...)
@@ -130,7 +132,7 @@ func c09Eval(s *vh.Session, c c09Case) (string, string) {
 				return "INFRA: CLI timed out"
 			}
 			if same, why := got.equal(ref); !same {
-				return fmt.Sprintf("after step %q (run %d of %d, patterns %v, cwd mode %d): %s", step, i+1, c.Runs, patterns, cwdMode, why)
+				return fmt.Sprintf("after step %q (run %d of %d, patterns %v, cwd mode %d): %s", step, i+1, c.Runs, patterns, (cwdMode+i)%3, why)
 			}
 		}
 		return ""
@@ -248,7 +250,7 @@ func TestC09(t *testing.T) {
 	rapid.Check(t, func(rt *rapid.T) {
 		o := gen.LayoutOpts{
 			Faults:  rapid.SampledFrom([]int{0, 0, 1, 2, 3, 4}).Draw(rt, "faults"),
-			Layouts: rapid.Bool().Draw(rt, "layouts"), SharedFile: true, Vars: true, MaxConvs: 5,
+			Layouts: rapid.Bool().Draw(rt, "layouts"), SharedFile: true, Vars: true, MaxConvs: 5, AllowCwd: true,
 			SamePackage: rapid.IntRange(0, 3).Draw(rt, "same-package") == 0,
 			FaultKinds:  c09FaultKinds(s),
 		}
